@@ -9,7 +9,7 @@ import os
 import random
 from fractions import Fraction
 
-from . import core, fncases, values
+from . import core, suite, fncases, values
 from . import formula as F
 from .values import enc, enc_num
 
@@ -182,6 +182,9 @@ def main(tier, replay=None):
     for _ in range(350 if quick else 15000):
         cases += rand_cases(rng)
     obs = fncases.observe(lib, cases, ranges=False)
+    so = suite.observations({'SUM','PRODUCT','AVERAGE','MIN','MAX','COUNT','MEDIAN','MODE','MODE.SNGL','VAR','VAR.S','VARP','VAR.P','AVEDEV','HARMEAN','LARGE','SLOPE','SUMIF','COUNTIF','AVERAGEIF','SUMIFS','AVERAGEIFS','MAXIFS'}, len(obs) + 1)   # the same functions as the repository's own tests call them
+    run.extra['calls_from_repository_tests'] = len(so)
+    obs += so
     for a, env, want in relation_obs(lib, rng, 150 if quick else 4000):
         h = F.Harnessed(lib, env)
         text = F.render(a)
